@@ -92,6 +92,7 @@ fn main() {
         }
         "graph" => ops_graph::run(&mut out, &tier, &mut rng),
         "types" => ops_types::run(&mut out, &tier, &mut rng),
+        "mappings" => ops_types::run_mappings(&mut out, &tier, &mut rng),
         "fields" => ops_names::run_fields(&mut out, &tier, &mut rng),
         "params" => ops_names::run_params(&mut out, &tier, &mut rng),
         "valid" => ops_valid::run(&mut out, &tier, &mut rng),
